@@ -416,7 +416,7 @@ def c01(out, a):
             out.write(tangent_record(rid, item, field, symmetric, rng, settle=settle, ncols=8 if a.tier == "quick" else 24))
     # multiplier handling of fun_items / jac_items
     from felupe.tools._newton import fun_items, jac_items
-    for mult in (None, -2.0, 3.0):
+    for mult in (None, -2.0, 3.0, 0.0):
         rid = "multiplier-%s" % mult
         if out.want(rid):
             m = perturb(fem.Cube(n=2), rng)
